@@ -102,6 +102,11 @@ NetOK(S, R) == \A t \in Present(S) \cap Present(R) :
                  /\ \A c \in Cols(R[t]) \cap Cols(S[t]) : R[t].cols[c] = S[t].cols[c] \/ ModOK(S[t].cols[c], R[t].cols[c])
 SameTable(S) == { R \in UNION { UNION { Second(M, t) \ {S} : M \in { X \in AddColumnS(S) : X[t] # S[t] /\ WF(X) } } : t \in Present(S) } : NetOK(S, R) }
 
+\* changes that cannot be carried out on a populated table - a rebuild of t together with a new NOT NULL column without default: no value
+\* exists for the rows that are there. Atlas must refuse them (its copy statement fails) and leave schema and rows as they were.
+Inadmissible(S) == UNION { UNION { { With(M, t, [M[t] EXCEPT !.cols[c] = [type |-> "INT", null |-> FALSE, dflt |-> "none", gen |-> ""]]) : c \in Cn \ (Cols(M[t]) \cup Cols(S[t])) }       \* a column the table never had
+                                   : M \in Rebuilds(S, t) } : t \in Present(S) }
+
 \* ---- row semantics of an edit (C05): which column values must survive ----------------------------------
 \* a column survives in table t iff it is present before (stored or generated: the values it showed), stored after, and has the same type
 Survives(S, R, t) == { c \in Cols(S[t]) \cap Stored(R[t]) : S[t].cols[c].type = R[t].cols[c].type }
